@@ -24,9 +24,26 @@ pub enum Expr {
     Unary(Box<UnaryExpr>),
 }
 
+/// Whether a name, standing alone as an operand, is read as a register or an index register
+/// rather than as a symbol (`x`, `r5`): as an expression it was written in parentheses
+fn reads_as_register(name: &str) -> bool {
+    let name = name.to_lowercase();
+    match name.as_str() {
+        "x" | "y" | "z" => true,
+        _ => {
+            name.starts_with('r')
+                && name.len() > 1
+                && name[1..].chars().all(|c| c.is_ascii_digit())
+        }
+    }
+}
+
 impl fmt::Display for Expr {
     fn fmt(&self, f: &mut fmt::Formatter) -> fmt::Result {
         match self {
+            // the text stands in for the expression (macro arguments): it keeps the parentheses
+            // without which it would name the register
+            Expr::Ident(ident) if reads_as_register(ident) => write!(f, "({})", ident),
             Expr::Ident(ident) => write!(f, "{}", ident),
             Expr::Const(c) => write!(f, "{}", c),
             Expr::Func(f_name, f_arg) => write!(f, "{}({})", f_name, f_arg),
